@@ -43,7 +43,7 @@ MC = {
 
 CLIS = [
     ("--solver-threads", "1"),
-    ("--solver-threads", "1", "--solver", "z3"),
+    ("--solver-threads", "1"),
     ("--solver-threads", "3"),
     ("--solver-threads", "1"),
     (),
@@ -64,8 +64,8 @@ def mk_cases(seed: int, n: int, tier: str) -> list:
         depth = (3, 4) if tier == "quick" else ((3, 5) if i % 4 else (4, 6))
         hard = 0.05 if (tier == "thorough" and i % 8 == 5) else 0.0
         cli = CLIS[i % len(CLIS)]
-        if "z3" in cli and not (tier == "thorough" and i % 10 == 1):
-            cli = ("--solver-threads", "1")
+        if tier == "thorough" and i % 23 == 1:
+            cli = ("--solver-threads", "1", "--solver", "z3")
         cases.append(uc.UcCase(seed=seed, index=i, ntests=3, depth=depth, hard=hard, cli=cli, inject=INJECT[i % len(INJECT)]))
     return cases
 
@@ -129,6 +129,9 @@ def model_check_verdicts(chk: Check, tier: str, bg: Background):
                     uncovered.add(f"{cfg}:{a}")
         chk.cov.setdefault("tlc", {})[cfg] = {"distinct": r.distinct_states, "generated": r.states_generated, "depth": r.depth,
                                                "violated": r.violated, "wall_s": round(r.wall_s, 1)}
+        if r.coverage:
+            # with PinTermVars nothing is ever reclaimed, so Reclaim / NewRecycled are expected to be dead there
+            chk.cov["tlc"][cfg]["actions_with_zero_count"] = sorted(a for a, (_, tot) in r.coverage.items() if tot == 0)
     chk.cov["spec_actions_never_taken"] = sorted(uncovered) if tier == "thorough" else "coverage is collected in the thorough tier"
     if uncovered and tier == "thorough":
         raise MachineryError(f"actions never taken: {sorted(uncovered)}")
